@@ -358,7 +358,18 @@ class ModelCheck:
             if justified:
                 chk.count("errors_justified_by_unsatisfiable_bounds")
             else:
-                self.violation("spurious-error/" + normalise_message(message),
+                # where do the blamed invariants live?  (an error about invariants of
+                # ONE class is a different mechanism than one about merged levels)
+                where = "other"
+                if mtch is not None:
+                    where = "across-levels"
+                    for entries in oracle.own_atoms.values():
+                        exact = [a for _, atoms in entries for a in atoms
+                                 if a.kind == "len" and a.status == "R"
+                                 and a.target == mtch.group(1) and "==" in a.detail]
+                        if len(exact) >= 2:
+                            where = "same-class"
+                self.violation(f"spurious-error/{where}/" + normalise_message(message),
                                message=message, context=context,
                                unsatisfiable=sorted(unsat_props))
 
@@ -368,9 +379,9 @@ class ModelCheck:
         chk.count("slots_compared")
         base = oracle.base_kind(type_)
         where = dict(cls=cname, prop=pname, level=level, type=repr(type_),
+                     declared_at="+".join(sorted(exp.levels)) or "none",
                      inferred=inferred.plain(),
                      atoms=[(a.owner, a.status, ast_src(a)) for a in exp.atoms])
-        levels = "+".join(sorted(exp.levels)) or "none"
 
         # length
         rec, guarded = exp.of("len", "R"), exp.of("len", "G")
@@ -391,7 +402,7 @@ class ModelCheck:
                     less = not implies(expected, got)
                     kind = "admits-different" if more and less else (
                         "admits-more" if more else "admits-less")
-                    key = f"len/{kind}-than-recognised-bounds/{levels}"
+                    key = f"len/{kind}-than-recognised-bounds"
                 self.violation(key, expected_admitted_lengths=[n for n, ok in enumerate(expected) if ok],
                                inferred_admitted_lengths=[n for n, ok in enumerate(got) if ok], **where)
             elif not exp.atoms:
@@ -412,7 +423,7 @@ class ModelCheck:
             if grd_p and rec_p <= got_p <= rec_p | amb_p | grd_p:
                 key = "misread/guard-on-other-property/pattern"
             elif rec_p - got_p:
-                key = f"pattern/missing/{levels}"
+                key = "pattern/missing"
             else:
                 key = "pattern/unexpected"
             self.violation(key, expected=sorted(rec_p), may_also=sorted(amb_p), **where)
@@ -447,7 +458,7 @@ class ModelCheck:
                     key = "misread/guard-on-other-property/set"
                 else:
                     more = not implies(got_s, high)
-                    key = f"set/{'admits-more' if more else 'admits-less'}-than-intersection/{levels}"
+                    key = f"set/{'admits-more' if more else 'admits-less'}-than-intersection"
                 self.violation(
                     key,
                     expected_literals=[repr(v) for v, ok in zip(universe, high) if ok],
@@ -525,7 +536,7 @@ def worker(args) -> Dict[str, Any]:
 
 def main(argv) -> int:
     chk = harness.Check("C15", "exploration", RULE, argv)
-    n_models = chk.pick(600, 20000)
+    n_models = chk.pick(500, 20000)
     n_shards = chk.pick(6, 8)
     with concurrent.futures.ProcessPoolExecutor(max_workers=n_shards) as pool:
         jobs = [pool.submit(worker, (list(argv), s, n_shards, n_models)) for s in range(n_shards)]
